@@ -88,6 +88,17 @@ CHECKS = {
   "note": COMMON_NOTE + "Modelled not verified: SQLite (atomic transactions, which constraint is reported first), gocrawlhq's HTTP client, "
           "Go timers; the batcher theorem is about the abstract receive/batch/dispatch/send pipeline whose shape the facts pin.",
  },
+ "C04": {
+  "text": "Theorems: after a restart every remaining queue row is FRESH whatever the table looked like at the stop or kill (nothing "
+          "stranded) and no row is lost or duplicated; in every admissible event log and every prefix of it (a crash anywhere) a "
+          "seed's row is deleted / the seed reported finished only after every exchange fetched for it was written; negation proved "
+          "for the pinned shape (D9). Facts: SQL status literals, transaction boundaries of Get/Add/Delete, what Init and Stop reset, "
+          "the position of the feedback wait before ItemArchived, notification after MarkAsFinished. Op sequences with kills anywhere "
+          "run against the real LQ client on a temp job directory; thorough: end-to-end crawls killed / stopped and restarted.",
+  "note": COMMON_NOTE + "Modelled not verified: SQLite atomic commit across a kill; the WARC library's contract (records on disk before the "
+          "feedback signal; a truncated tail does not damage earlier records) — validated end to end in the thorough tier only; kill "
+          "points are event-driven, not instruction-level.",
+ },
 }
 
 _todo = "check not built yet in this session (work in progress; see DESIGN.md §4 for the planned model and theorems)"
